@@ -39,6 +39,9 @@ CHECKS = {
  "C12": dict(cat="exploration", tech="grammar-based and arbitrary-text fuzzing (Hypothesis; Atheris coverage-guided in thorough) with round-trip oracles, an independent precedence-climbing evaluator as meaning oracle, typed-failure checks for sentences invalid by construction, and exhaustive enumeration of short format strings against a reference grammar",
    text="Generated sentences (all literal spellings, random spaces, redundant parentheses), generated trees, arbitrary and mutated text, and every format string over {d,s,0-3} up to the tier length go through the parsers: nothing is raised, accepted text round-trips, the parsed tree folds to the value an independent evaluator computes from the text, invalid sentences give the specific typed failure, format acceptance matches the documented grammar.",
    note="Trusted: the harness's 60-line tokenizer/evaluator as the conventional meaning of the text; bounded string length 256.", ref="DESIGN.md §3 C12"),
+ "C13": dict(cat="exploration", tech="model-based history testing: exhaustive short histories plus Hypothesis RuleBasedStateMachine histories executed in a child under an LD_PRELOAD free()/realloc() interposer with quarantine, checked after every step against a reference-count model",
+   text="Every history (evaluate to sparse/dense/scalar, alias, cffi struct, read, pickle, feed as input, delete, gc.collect) is executed on real tensora objects; after every step each kernel-allocated array must have been freed 0 times while referenced and exactly once after its last reference is gone (never twice, never during the call that produced it).",
+   note="Trusted: the interposer sees every free/realloc (LD_PRELOAD first in resolution order); quarantine prevents address reuse inside a history.", ref="DESIGN.md §3 C13"),
 }
 def main():
     checks = []
